@@ -41,6 +41,10 @@ var (
 	// VerifDoPoison: overwrite a block with VerifPoison when it is freed (C02/C03 runs).  Off for the
 	// value-only comparison (C01), where a premature free must not change what is read.
 	VerifDoPoison = true
+	// VerifOnFree, when set, is called at the start of every Free with the slice being freed, before the block is
+	// logged and poisoned: the harness inspects the state netpoll is in at the very moment it gives the block back
+	// (e.g. is the block still under data that has not been consumed?).  It may call VerifBlockOf.
+	VerifOnFree func(buf []byte)
 )
 
 // VerifTake returns and clears the event log.
@@ -126,6 +130,9 @@ func Free(buf []byte) {
 		return
 	}
 	h := (*bytesHeader)(unsafe.Pointer(&buf))
+	if f := VerifOnFree; f != nil {
+		f(buf)
+	}
 	verifMu.Lock()
 	id, ok := verifIDs[h.Data]
 	if !ok {
